@@ -60,7 +60,8 @@ def make_contents(seed):
             continue
         i = rows[0]
         bad_lines[i] = dict(bad_lines[i], cells=[gen.lit('err', 'U4c')] + bad_lines[i]['cells'][1:])
-        kbad = session.render(bad_lines)
+        # blank lines before the first record (they count as lines: the reported error line must be the same through load and loads)
+        kbad = '\n\r\n\n' + session.render(bad_lines)
 
         def api_k2e(text):
             d, e = kp.loads(text)
